@@ -1,6 +1,6 @@
 # Author: Frantisek Krenzelok
 """Pure-Python RSA implementation."""
-from ecdsa.der import encode_sequence, encode_integer,  \
+from ecdsa.der import encode_sequence, encode_integer, UnexpectedDER, \
     remove_sequence, remove_integer
 
 from .cryptomath import getRandomNumber, getRandomPrime,    \
@@ -147,11 +147,15 @@ class Python_DSAKey(DSAKey):
         # get r, s keys
         if not signature:
             return False
-        body, rest = remove_sequence(signature)
-        if rest:
+        try:
+            body, rest = remove_sequence(signature)
+            if rest:
+                return False
+            r, rest = remove_integer(body)
+            s, rest = remove_integer(rest)
+        except UnexpectedDER:
+            # a signature that is not a DER Dss-Sig-Value does not verify
             return False
-        r, rest = remove_integer(body)
-        s, rest = remove_integer(rest)
         if rest:
             return False
 
